@@ -130,7 +130,7 @@ fn run_batch(engine: &dyn Engine, seed: u64, runs: u64, thorough: bool, threads:
                 let case_seed = mix(seed, i);
                 let case = engine.gen(case_seed, thorough);
                 let plan = plan_for(case_seed);
-                let out = engine.run(&case, &plan);
+                let out = exec::guarded(engine.property(), || engine.run(&case, &plan));
                 let mut a = agg.lock().unwrap();
                 a.evals += 1;
                 a.stats.merge(&out.stats);
@@ -205,7 +205,7 @@ fn minimise(engine: &dyn Engine, f: &Found, budget_s: f64) -> Found {
                     plan.hash_seed = mix(cur.plan.hash_seed, alt);
                 }
                 tries += 1;
-                let out = engine.run(&c, &plan);
+                let out = exec::guarded(engine.property(), || engine.run(&c, &plan));
                 if let Some(v) = out.violation {
                     if v.sig() == sig {
                         cur = Found { index: f.index, case_seed: f.case_seed, case: c.clone(), plan, violation: v };
@@ -227,7 +227,7 @@ fn minimise_schedule(engine: &dyn Engine, f: &Found, budget_s: f64) -> (Found, V
     let sig = f.violation.sig();
     let mut plan = f.plan.clone();
     plan.keep_trace = true;
-    let out = engine.run(&f.case, &plan);
+    let out = exec::guarded(engine.property(), || engine.run(&f.case, &plan));
     let same = out.violation.as_ref().map(|v| v.sig() == sig).unwrap_or(false);
     if !same {
         return (f.clone(), out.execs);
@@ -250,7 +250,7 @@ fn minimise_schedule(engine: &dyn Engine, f: &Found, budget_s: f64) -> (Found, V
     let check = |specs: &Vec<Option<SchedSpec>>| -> Option<Outcome> {
         let mut p = plan.clone();
         p.explicit = specs.clone();
-        let o = engine.run(&f.case, &p);
+        let o = exec::guarded(engine.property(), || engine.run(&f.case, &p));
         if o.violation.as_ref().map(|v| v.sig() == sig).unwrap_or(false) {
             Some(o)
         } else {
@@ -368,7 +368,7 @@ fn replay(path: &str) -> i32 {
     let engine = engine_for(&prop).expect("engine");
     let mut plan: SchedPlan = serde_json::from_value(v["plan"].clone()).expect("plan");
     plan.keep_trace = true;
-    let out = engine.run(&v["case"], &plan);
+    let out = exec::guarded(engine.property(), || engine.run(&v["case"], &plan));
     let expected: Vec<Vec<u32>> = match v.get("expected_traces_rle").and_then(|x| x.as_array()) {
         Some(a) => a.iter().map(|s| unrle(s.as_str().unwrap_or(""))).collect(),
         None => serde_json::from_value(v["expected_traces"].clone()).unwrap_or_default(),
@@ -433,7 +433,7 @@ fn cmd_vary(args: &[String]) -> i32 {
         plan.explicit.clear();
         plan.seed = mix(plan0.seed, 1000 + i);
         plan.hash_seed = mix(plan0.hash_seed, 1000 + i);
-        let out = engine.run(&v["case"], &plan);
+        let out = exec::guarded(engine.property(), || engine.run(&v["case"], &plan));
         if let Some(x) = out.violation {
             hits += 1;
             if hits <= 3 {
@@ -464,7 +464,7 @@ fn cmd_digest(args: &[String]) -> i32 {
                 }
                 let case_seed = mix(seed, i);
                 let case = engine.gen(case_seed, false);
-                let out = engine.run(&case, &plan_for(case_seed));
+                let out = exec::guarded(engine.property(), || engine.run(&case, &plan_for(case_seed)));
                 let line = format!(
                     "{i} {} steps={} ilv={:?}",
                     out.violation.as_ref().map(|v| v.sig()).unwrap_or_else(|| "held".into()),
@@ -513,8 +513,10 @@ fn cmd_run(args: &[String]) -> i32 {
     if let Some(f) = &agg.found {
         violations = 1;
         eprintln!("violation at run {} (case seed {}): {} — minimising", f.index, f.case_seed, f.violation.sig());
-        let m = minimise(engine.as_ref(), f, if thorough { 120.0 } else { 40.0 });
-        let (m2, execs) = minimise_schedule(engine.as_ref(), &m, if thorough { 60.0 } else { 20.0 });
+        // SIM_NO_MINIMISE=1: sensitivity sweeps only need the verdict, not a minimal replay
+        let quick_report = std::env::var("SIM_NO_MINIMISE").map(|v| v == "1").unwrap_or(false);
+        let m = minimise(engine.as_ref(), f, if quick_report { 0.0 } else if thorough { 120.0 } else { 40.0 });
+        let (m2, execs) = minimise_schedule(engine.as_ref(), &m, if quick_report { 0.0 } else if thorough { 60.0 } else { 20.0 });
         let path = write_replay(&prop, seed, &m2, &execs, f);
         println!("violation: {}", m2.violation.sig());
         println!("violation: {}", m2.violation.msg.chars().take(1500).collect::<String>());
